@@ -221,16 +221,16 @@ func (e *Exec) applyContract(fr *Frame, ins ssa.Instruction, ctr *Contract, name
 		// assert-then-assume
 		e.assume(g, t)
 	}
-	// havoc the frame
+	// havoc the frame (the allocation top first: well-formedness of havocked heaps refers to it)
 	post := st.clone()
-	for _, m := range ctr.Modifies {
-		e.havocLoc(m, env, pre, post)
-	}
 	if !ctr.Flags["noalloc"] {
 		old := e.top(pre)
 		nt := e.havoc(post, "$top", SInt)
 		e.Out.Assert("(>= " + nt + " " + old + ")")
 		e.recordWrite("$top", "")
+	}
+	for _, m := range ctr.Modifies {
+		e.havocLoc(m, env, pre, post)
 	}
 	// results
 	var res Val
@@ -241,6 +241,23 @@ func (e *Exec) applyContract(fr *Frame, ins ssa.Instruction, ctr *Contract, name
 		env2 := &Env{e: e, vars: env.vars, st: post, old: pre, fr: fr, result: &res}
 		for _, c := range ctr.Ensures {
 			e.assume(g, e.evalBool(c, env2))
+		}
+	}
+	// call-site hints of the function under verification (proof decomposition: proved here, then assumed)
+	if fr.ctr != nil && fr.ctr.SiteHints != nil && !isGo {
+		for key, hints := range fr.ctr.SiteHints {
+			if !strings.HasSuffix(site, key) {
+				continue
+			}
+			henv := e.envForFunc(fr, post, fr.entryState, nil)
+			henv.result = &res
+			henv.block = ins.Block()
+			for _, c := range hints {
+				t := e.evalBool(c, henv)
+				e.Out.AddObl(&Obligation{Name: fmt.Sprintf("%s/hint:%s:%s", FuncKey(fr.fn), key, c.Label), Func: FuncKey(fr.fn), Kind: "hint", Label: c.Label, Text: c.Text, Src: c.Src,
+					Formula: Imp(g, t), Inputs: e.obsInputs(fr), Obs: e.lastObs})
+				e.assume(g, t)
+			}
 		}
 	}
 	// commit: under the guard the post state holds, otherwise the pre state
@@ -306,7 +323,7 @@ func (e *Exec) doBuiltin(fr *Frame, ins ssa.Instruction, b *ssa.Builtin, c *ssa.
 		a := args[0]
 		switch t := c.Args[0].Type().Underlying().(type) {
 		case *types.Slice:
-			return Val{T: e.Out.Define(name, SInt, "(s_len "+a.T+")"), S: SInt, Ty: intT}
+			return Val{T: e.Out.Define(name, SInt, ""+e.slen(a.T)+""), S: SInt, Ty: intT}
 		case *types.Basic:
 			return Val{T: e.Out.Define(name, SInt, "(str.len "+a.T+")"), S: SInt, Ty: intT}
 		case *types.Array:
@@ -338,26 +355,26 @@ func (e *Exec) doBuiltin(fr *Frame, ins ssa.Instruction, b *ssa.Builtin, c *ssa.
 		if bt, ok := c.Args[1].Type().Underlying().(*types.Basic); ok && bt.Info()&types.IsString != 0 {
 			// copy from string: contents opaque
 			h, hs := e.elemHeap(elem)
-			n := e.Out.Define(name, SInt, "(ite (< (s_len "+dst.T+") (str.len "+src.T+")) (s_len "+dst.T+") (str.len "+src.T+"))")
+			n := e.Out.Define(name, SInt, "(ite (< "+e.slen(dst.T)+" (str.len "+src.T+")) "+e.slen(dst.T)+" (str.len "+src.T+"))")
 			heap := e.get(st, h, hs)
 			row := e.Out.Fresh("copyrow", ArrSort(SInt, e.sortOf(elem)))
 			q := e.Out.FreshName("i")
-			drow := Sel(heap, "(s_base "+dst.T+")")
-			e.Out.Assert("(forall ((" + q + " Int)) (! (=> (not (and (<= (s_off " + dst.T + ") " + q + ") (< " + q + " (+ (s_off " + dst.T + ") " + n + ")))) (= (select " + row + " " + q + ") (select " + drow + " " + q + "))) :pattern ((select " + row + " " + q + "))))")
-			e.set(st, h, hs, Ite(g, Sto(heap, "(s_base "+dst.T+")", row), heap))
-			e.recordWrite(h, "(s_base "+dst.T+")")
+			drow := Sel(heap, ""+e.sbase(dst.T)+"")
+			e.Out.Assert("(forall ((" + q + " Int)) (! (=> (not (and (<= "+e.soff(dst.T)+" " + q + ") (< " + q + " (+ "+e.soff(dst.T)+" " + n + ")))) (= (select " + row + " " + q + ") (select " + drow + " " + q + "))) :pattern ((select " + row + " " + q + "))))")
+			e.set(st, h, hs, Ite(g, Sto(heap, ""+e.sbase(dst.T)+"", row), heap))
+			e.recordWrite(h, ""+e.sbase(dst.T)+"")
 			return Val{T: n, S: SInt, Ty: intT}
 		}
 		h, hs := e.elemHeap(elem)
-		n := e.Out.Define(name, SInt, "(ite (< (s_len "+dst.T+") (s_len "+srcT+")) (s_len "+dst.T+") (s_len "+srcT+"))")
+		n := e.Out.Define(name, SInt, "(ite (< "+e.slen(dst.T)+" "+e.slen(srcT)+") "+e.slen(dst.T)+" "+e.slen(srcT)+")")
 		heap := e.get(st, h, hs)
 		row := e.Out.Fresh("copyrow", ArrSort(SInt, e.sortOf(elem)))
 		q := e.Out.FreshName("i")
-		drow := Sel(heap, "(s_base "+dst.T+")")
-		srow := Sel(heap, "(s_base "+srcT+")")
-		e.Out.Assert("(forall ((" + q + " Int)) (! (= (select " + row + " " + q + ") (ite (and (<= (s_off " + dst.T + ") " + q + ") (< " + q + " (+ (s_off " + dst.T + ") " + n + "))) (select " + srow + " (+ (s_off " + srcT + ") (- " + q + " (s_off " + dst.T + ")))) (select " + drow + " " + q + "))) :pattern ((select " + row + " " + q + "))))")
-		e.set(st, h, hs, Ite(g, Sto(heap, "(s_base "+dst.T+")", row), heap))
-		e.recordWrite(h, "(s_base "+dst.T+")")
+		drow := Sel(heap, ""+e.sbase(dst.T)+"")
+		srow := Sel(heap, ""+e.sbase(srcT)+"")
+		e.Out.Assert("(forall ((" + q + " Int)) (! (= (select " + row + " " + q + ") (ite (and (<= "+e.soff(dst.T)+" " + q + ") (< " + q + " (+ "+e.soff(dst.T)+" " + n + "))) (select " + srow + " (+ "+e.soff(srcT)+" (- " + q + " "+e.soff(dst.T)+"))) (select " + drow + " " + q + "))) :pattern ((select " + row + " " + q + "))))")
+		e.set(st, h, hs, Ite(g, Sto(heap, ""+e.sbase(dst.T)+"", row), heap))
+		e.recordWrite(h, ""+e.sbase(dst.T)+"")
 		return Val{T: n, S: SInt, Ty: intT}
 	case "append":
 		return e.doAppend(fr, ins, c, args, st, g)
@@ -405,28 +422,28 @@ func (e *Exec) doAppend(fr *Frame, ins ssa.Instruction, c *ssa.CallCommon, args 
 		xlen = "(str.len " + xs.T + ")"
 		xat = func(i string) string { return "(str.to_code (str.at " + xs.T + " " + i + "))" }
 	} else {
-		xlen = "(s_len " + xs.T + ")"
-		xat = func(i string) string { return Sel(Sel(heap, "(s_base "+xs.T+")"), "(+ (s_off "+xs.T+") "+i+")") }
+		xlen = ""+e.slen(xs.T)+""
+		xat = func(i string) string { return Sel(Sel(heap, ""+e.sbase(xs.T)+""), elemIdx(e.soff(xs.T), i)) }
 	}
-	newLen := e.Out.Define(name+"$len", SInt, "(+ (s_len "+s.T+") "+xlen+")")
-	fits := e.Out.Define(name+"$fits", SBool, "(<= "+newLen+" (s_cap "+s.T+"))")
+	newLen := e.Out.Define(name+"$len", SInt, "(+ "+e.slen(s.T)+" "+xlen+")")
+	fits := e.Out.Define(name+"$fits", SBool, "(<= "+newLen+" "+e.scap(s.T)+")")
 	fresh := e.alloc(st)
 	newCap := e.Out.Fresh(name+"$cap", SInt)
 	e.Out.Assert("(>= " + newCap + " " + newLen + ")")
-	base := e.Out.Define(name+"$base", SInt, Ite(fits, "(s_base "+s.T+")", fresh))
-	off := e.Out.Define(name+"$off", SInt, Ite(fits, "(s_off "+s.T+")", "0"))
+	base := e.Out.Define(name+"$base", SInt, Ite(fits, ""+e.sbase(s.T)+"", fresh))
+	off := e.Out.Define(name+"$off", SInt, Ite(fits, ""+e.soff(s.T)+"", "0"))
 	row := e.Out.Fresh("approw", ArrSort(SInt, es))
 	q := e.Out.FreshName("i")
-	oldRow := Sel(heap, "(s_base "+s.T+")")
+	oldRow := Sel(heap, ""+e.sbase(s.T)+"")
 	// new row: old elements (at new offset), then xs, elsewhere unchanged (in place) / zero (fresh)
-	inOld := "(and (<= " + off + " " + q + ") (< " + q + " (+ " + off + " (s_len " + s.T + "))))"
-	inNew := "(and (<= (+ " + off + " (s_len " + s.T + ")) " + q + ") (< " + q + " (+ " + off + " " + newLen + ")))"
-	oldAt := Sel(oldRow, "(+ (s_off "+s.T+") (- "+q+" "+off+"))")
-	newAt := xat("(- " + q + " (+ " + off + " (s_len " + s.T + ")))")
+	inOld := "(and (<= " + off + " " + q + ") (< " + q + " (+ " + off + " "+e.slen(s.T)+")))"
+	inNew := "(and (<= (+ " + off + " "+e.slen(s.T)+") " + q + ") (< " + q + " (+ " + off + " " + newLen + ")))"
+	oldAt := Sel(oldRow, "(+ "+e.soff(s.T)+" (- "+q+" "+off+"))")
+	newAt := xat("(- " + q + " (+ " + off + " "+e.slen(s.T)+"))")
 	elseAt := Ite(fits, Sel(oldRow, q), e.zeroOf(elem))
 	e.Out.Assert("(forall ((" + q + " Int)) (! (= (select " + row + " " + q + ") (ite " + inOld + " " + oldAt + " (ite " + inNew + " " + newAt + " " + elseAt + "))) :pattern ((select " + row + " " + q + "))))")
 	e.set(st, h, hs, Ite(g, Sto(heap, base, row), heap))
 	e.recordWrite(h, "")
-	res := e.Out.Define(name, SSlice, "(mk_slice "+base+" "+off+" "+newLen+" "+Ite(fits, "(s_cap "+s.T+")", newCap)+")")
+	res := e.Out.Define(name, SSlice, "(mk_slice "+base+" "+off+" "+newLen+" "+Ite(fits, ""+e.scap(s.T)+"", newCap)+")")
 	return Val{T: res, S: SSlice, Ty: c.Args[0].Type()}
 }
